@@ -7,11 +7,21 @@
 #include "bitserializer/types/std/map.h"
 #include "bitserializer/types/std/vector.h"
 #include <set>
+#include <deque>
+#include <list>
+#include <array>
+#include <tuple>
+#include "bitserializer/types/std/deque.h"
+#include "bitserializer/types/std/list.h"
+#include "bitserializer/types/std/array.h"
+#include "bitserializer/types/std/tuple.h"
 
 using namespace arch;
 using refmp::Val; using RT = refmp::T;
 
 namespace {
+
+template <class C> struct XmlWrap { C* t; template <class Ar> void Serialize(Ar& a) { a << KeyValue("seq", *t); } };   // XML has no keyless array at the root of a typed load
 
 Val gen_leaf(vf::Src& s, int archId) {
 	const bool text = archId == XML;
@@ -145,8 +155,52 @@ template <class A> void run_required(vf::Ctx& c, int archId) {
 	}
 }
 
+// typed sequences and tuples (the std adapters, not only the raw array scope): element i offended => element i keeps its previous value,
+// every other element is loaded, the length is unchanged
+template <class C> std::vector<int64_t> as_vec(const C& c) { return std::vector<int64_t>(c.begin(), c.end()); }
+template <class A, class C> void run_int_seq(vf::Ctx& c, int archId, const char* name, size_t fixedN) {
+	const size_t n = fixedN ? fixedN : 2 + c.src.draw(6); std::vector<int64_t> clean; for (size_t i = 0; i < n; i++) clean.push_back(-5 - static_cast<int64_t>(c.src.draw(100000)));
+	std::vector<Val> doc; std::vector<bool> off(n, false); bool followed = false; for (size_t i = 0; i < n; i++) { if (c.src.chance(1, 3)) { off[i] = true; doc.push_back(offending_value(c.src, RT::Int, archId)); if (i + 1 < n) followed = true; } else doc.push_back(refmp::mkInt(clean[i])); }
+	std::string bytes; Cfg mem; Outcome so = dyn::save<A>(archId == XML ? refmp::mkMap({ { refmp::mkStr("seq"), refmp::mkArr(doc) } }) : refmp::mkArr(doc), bytes, mem); if (!so.ok()) c.fail("saving the document failed", so.str());
+	Cfg cfg; cfg.stream = c.src.coin(); cfg.opt.mismatchedTypesPolicy = MismatchedTypesPolicy::Skip; cfg.opt.overflowNumberPolicy = OverflowNumberPolicy::Skip;
+	c.nontrivial = followed; c.describe(vf::cat(arch_name(archId), " ", name, " n=", n, " ", refmp::show(refmp::mkArr(doc)).substr(0, 200), " stream=", cfg.stream));
+	C target{}; if constexpr (std::is_same_v<C, std::array<int64_t, 5>>) target.fill(-424242); else target.assign(n, -424242);
+	Outcome lo; if (archId == XML) { lo = capture([&] { XmlWrap<C> w{ &target }; if (cfg.stream) { std::istringstream is(bytes); LoadObject<A>(w, is, cfg.opt); } else LoadObject<A>(w, bytes, cfg.opt); }); } else lo = load<A>(target, bytes, cfg);
+	const std::vector<int64_t> got = as_vec(target); std::string gs; for (auto x : got) gs += std::to_string(x) + " ";
+	const std::string d = vf::cat(arch_name(archId), " ", name, " doc=", archId == MSGPACK ? vf::hex(bytes.substr(0, 160)) : bytes.substr(0, 300), " stream=", cfg.stream, " => ", lo.str(), " loaded=[", gs, "]");
+	if (!lo.ok()) c.fail("loading with the Skip policies ended in an exception", d);
+	if (got.size() != n) c.fail("a sequence changed its length because an element was skipped", d);
+	for (size_t i = 0; i < n; i++) { if (off[i] ? got[i] != -424242 : got[i] != clean[i]) c.fail(off[i] ? "the target of a skipped value was modified" : "a value that was not offended is loaded differently (neighbour disturbed)", vf::cat("element ", i, " | ", d)); }
+}
+template <class A> void run_tuple(vf::Ctx& c, int archId) {
+	using Tup = std::tuple<int64_t, std::string, double, int64_t, bool>; const bool typed = archId == MSGPACK || archId == JSON;
+	const Tup clean{ -5 - static_cast<int64_t>(c.src.draw(1000)), "text" + std::to_string(c.src.draw(100)), 0.25 + static_cast<double>(c.src.draw(100)), -7 - static_cast<int64_t>(c.src.draw(1000)), true };
+	std::vector<Val> doc = { refmp::mkInt(std::get<0>(clean)), refmp::mkStr(std::get<1>(clean)), refmp::mkF64(std::get<2>(clean)), refmp::mkInt(std::get<3>(clean)), typed ? refmp::mkBool(true) : refmp::mkStr("true") };
+	static const RT kinds[5] = { RT::Int, RT::Str, RT::F64, RT::Int, RT::Bool }; bool off[5] = { false, false, false, false, false }; bool followed = false;
+	for (size_t i = 0; i < 5; i++) if (c.src.chance(1, 3)) { off[i] = true; Val v = offending_value(c.src, kinds[i], archId); if (!typed && kinds[i] == RT::Bool) v = refmp::mkStr("maybe"); doc[i] = v; if (i < 4) followed = true; }
+	std::string bytes; Cfg mem; Outcome so = dyn::save<A>(archId == XML ? refmp::mkMap({ { refmp::mkStr("seq"), refmp::mkArr(doc) } }) : refmp::mkArr(doc), bytes, mem); if (!so.ok()) c.fail("saving the document failed", so.str());
+	Cfg cfg; cfg.stream = c.src.coin(); cfg.opt.mismatchedTypesPolicy = MismatchedTypesPolicy::Skip; cfg.opt.overflowNumberPolicy = OverflowNumberPolicy::Skip;
+	c.nontrivial = followed; c.describe(vf::cat(arch_name(archId), " tuple ", refmp::show(refmp::mkArr(doc)).substr(0, 200), " stream=", cfg.stream));
+	Tup target{ -424242, "<sentinel>", -4242.5, -424242, false };
+	Outcome lo; if (archId == XML) lo = capture([&] { XmlWrap<Tup> w{ &target }; if (cfg.stream) { std::istringstream is(bytes); LoadObject<A>(w, is, cfg.opt); } else LoadObject<A>(w, bytes, cfg.opt); }); else lo = load<A>(target, bytes, cfg);
+	const std::string d = vf::cat(arch_name(archId), " tuple doc=", archId == MSGPACK ? vf::hex(bytes.substr(0, 160)) : bytes.substr(0, 300), " stream=", cfg.stream, " => ", lo.str(), " loaded=(", std::get<0>(target), ",", std::get<1>(target), ",", std::get<2>(target), ",", std::get<3>(target), ",", std::get<4>(target), ")");
+	if (!lo.ok()) c.fail("loading with the Skip policies ended in an exception", d);
+	auto chk = [&](bool ok, size_t i) { if (!ok) c.fail(off[i] ? "the target of a skipped value was modified" : "a value that was not offended is loaded differently (neighbour disturbed)", vf::cat("tuple element ", i, " | ", d)); };
+	chk(off[0] ? std::get<0>(target) == -424242 : std::get<0>(target) == std::get<0>(clean), 0); chk(off[1] ? std::get<1>(target) == "<sentinel>" : std::get<1>(target) == std::get<1>(clean), 1); chk(off[2] ? std::get<2>(target) == -4242.5 : std::get<2>(target) == std::get<2>(clean), 2);
+	chk(off[3] ? std::get<3>(target) == -424242 : std::get<3>(target) == std::get<3>(clean), 3); chk(off[4] ? std::get<4>(target) == false : std::get<4>(target) == true, 4);
+}
+template <class A> void run_typed_seq(vf::Ctx& c, int archId) {
+	switch (c.src.draw(6)) {
+	case 0: run_int_seq<A, std::vector<int64_t>>(c, archId, "vector", 0); break; case 1: run_int_seq<A, std::deque<int64_t>>(c, archId, "deque", 0); break; case 2: run_int_seq<A, std::list<int64_t>>(c, archId, "list", 0); break;
+	case 3: run_int_seq<A, std::array<int64_t, 5>>(c, archId, "array<5>", 5); break; default: run_tuple<A>(c, archId);
+	}
+}
+
 } // namespace
 
+VF_PROPERTY(skip_typed_sequences_msgpack, 3, "typed std sequences (vector, deque, list, array<5> of int64) and tuple<int64,string,double,int64,bool> pre-filled with sentinels and loaded with the Skip policies from an array in which any subset of elements is replaced by a mismatching / out-of-range value: offended elements keep their sentinel, all others are loaded, the length is unchanged; memory and streams; non-trivial = an offended element is followed by another element") { run_typed_seq<MsgPackArchive>(c, MSGPACK); }
+VF_PROPERTY(skip_typed_sequences_json, 3, "same through JSON") { run_typed_seq<JsonArchive>(c, JSON); }
+VF_PROPERTY(skip_typed_sequences_xml, 2, "same through XML (the sequence is the member 'seq' of the root)") { run_typed_seq<XmlArchive>(c, XML); }
 VF_PROPERTY(skip_dyn_msgpack, 5, "arbitrary tree (depth <= 3: arrays of scalars, arrays of objects, objects holding arrays, byte containers) with 1..6 values at any depth replaced by a certainly mismatching value (other scalar kind, string, array, object, out-of-range number), loaded with both Skip policies from memory and streams into a sentinel-filled target of the clean shape, followed by an envelope sentinel; non-trivial = an offence is followed by more data in the same array/object") { run_dyn<MsgPackArchive>(c, MSGPACK); }
 VF_PROPERTY(skip_dyn_json, 4, "same through JSON") { run_dyn<JsonArchive>(c, JSON); }
 VF_PROPERTY(skip_dyn_xml, 3, "same through XML (untyped text: offence = text that does not parse as the target type, or an element with children for a string target)") { run_dyn<XmlArchive>(c, XML); }
